@@ -20,6 +20,10 @@
 (*  match   Match._validate_match                                          *)
 (*  project _annotations_are_part_of_the_project: loop over the annotated  *)
 (*          clips, error at the first one without a task                   *)
+(*          (ProjScan = "generator", history/MC_SchemaRel_proj_generator   *)
+(*          .cfg: the task uuids as a generator that every membership test *)
+(*          consumes -- refuted when the annotations are listed in another *)
+(*          order than the tasks or a clip has two clip annotations)       *)
 (*  clip    Clip._validate_times.  ClipValidator = "after" (the repaired   *)
 (*          code) compares the validated floats; "before" (the code as     *)
 (*          found, history/MC_SchemaRel_clip_before.cfg) compares the raw  *)
@@ -38,11 +42,12 @@ CONSTANTS MaxLen,        \* all match sequences up to this length (pairing "same
           ShareLen,      \* match sequences up to this length when a prediction carries the uuid of an annotation
           MatchKey,      \* "annotation" (the code) | "target_sound_event" (control: targets keyed on the wrapped sound event)
                          \* | "merged_pool" (control: sources and targets checked in one pool of uuids)
+          ProjScan,      \* "set" (the code: a set of task clip uuids) | "generator" (control: a generator, consumed by each test)
           ClipKey,       \* "uuid" (the code) | "deep" (control: clips compared by deep equality instead of by uuid)
           ClipValidator  \* "after" | "before"
-VARIABLES c, path, pc, k, ok
+VARIABLES c, path, pc, k, ok, g
 
-vars == <<c, path, pc, k, ok>>
+vars == <<c, path, pc, k, ok, g>>
 
 (* ------------------------------ universe -------------------------------- *)
 Side == 0..3
@@ -80,8 +85,12 @@ InitCase ==
     \/ \E pu \in Shares, n \in 0..ShareLen, na \in 1..2, np \in 1..2 :
           \E ms \in SeqsOfLen(Side \X (0..2), n) : c = CEU(na, np, ms, "same", Own, Own, pu)
     \/ \E s \in 0..1, t \in 0..1 : c = [kind |-> "match", s |-> s, t |-> t]
-    \/ \E tk \in [1..3 -> BOOLEAN], an \in [1..3 -> BOOLEAN], enr \in Enrich :
-          c = [kind |-> "project", task |-> <<tk[1], tk[2], tk[3]>>, ann |-> <<an[1], an[2], an[3]>>, enr |-> enr]
+    \* tasks: every ordered selection of the clips; clip annotations: every sequence of <= 3 clips (repeats = a clip
+    \* with two clip annotations); enriched copies only with <= 2 annotations
+    \/ \E n \in 0..3, m \in 0..3 : \E ts \in SeqsOfLen(1..3, n), as \in SeqsOfLen(1..3, m), enr \in Enrich :
+          /\ \A i, j \in DOMAIN ts : ts[i] = ts[j] => i = j
+          /\ (m = 3 => enr = <<0, 0, 0>>)
+          /\ c = [kind |-> "project", tseq |-> ts, aseq |-> as, enr |-> enr]
     \/ \E i \in DOMAIN ClipPoints, j \in DOMAIN ClipPoints, u \in 1..2, e \in Encs :
           (e = "int" => u = 1) /\ c = [kind |-> "clip", st |-> ClipPoints[i], en |-> ClipPoints[j], u |-> u, enc |-> e]
     \/ \E f \in DOMAIN Fields, v \in DOMAIN ScoreValues, e \in {"num", "str"} :
@@ -90,13 +99,13 @@ InitCase ==
 \* only the clip validator can tell the paths apart, so only clip cases are run once per path
 Init == /\ InitCase
         /\ path \in (IF c.kind = "clip" THEN Range(Paths) ELSE {"ctor"})
-        /\ pc = c.kind /\ k = 1 /\ ok = TRUE
+        /\ pc = c.kind /\ k = 1 /\ ok = TRUE /\ g = 0
 
-Fail(why) == pc' = why /\ ok' = FALSE /\ UNCHANGED <<c, path, k>>
-Goto(l)   == pc' = l /\ UNCHANGED <<c, path, ok>>
+Fail(why) == pc' = why /\ ok' = FALSE /\ UNCHANGED <<g, c, path, k>>
+Goto(l)   == pc' = l /\ UNCHANGED <<g, c, path, ok>>
 
 (* ---- clip evaluation ---- *)
-CeMatchOk   == pc = "ce" /\ k <= Len(c.ms) /\ MatchHasSide(c.ms[k]) /\ k' = k + 1 /\ UNCHANGED <<c, path, pc, ok>>
+CeMatchOk   == pc = "ce" /\ k <= Len(c.ms) /\ MatchHasSide(c.ms[k]) /\ k' = k + 1 /\ UNCHANGED <<g, c, path, pc, ok>>
 CeMatchNull == pc = "ce" /\ k <= Len(c.ms) /\ ~MatchHasSide(c.ms[k]) /\ Fail("E:match between two null objects")
 CeMatchesDone == pc = "ce" /\ k > Len(c.ms) /\ Goto("ce_clips") /\ k' = k
 \* the two clips are taken for the same one: by uuid (the code), or (control) only when they are deeply equal
@@ -132,12 +141,16 @@ CeSetSOk  == pc = "ce_set_s" /\ Range(Sources) = 1..c.np /\ Goto("built") /\ k' 
 MatchOk   == pc = "match" /\ (c.s # 0 \/ c.t # 0) /\ Goto("built") /\ k' = k
 MatchNull == pc = "match" /\ c.s = 0 /\ c.t = 0 /\ Fail("E:match between two null objects")
 (* ---- project ---- *)
-ProjSkip == pc = "project" /\ k <= 3 /\ ~c.ann[k] /\ k' = k + 1 /\ UNCHANGED <<c, path, pc, ok>>
-\* the annotated clip k is found among the task clips: by uuid (the code), or (control) only by a deeply equal copy
-HasTask(j) == c.task[j] /\ (ClipKey = "uuid" \/ c.enr[j] = 0)
-ProjOk   == pc = "project" /\ k <= 3 /\ c.ann[k] /\ HasTask(k) /\ k' = k + 1 /\ UNCHANGED <<c, path, pc, ok>>
-ProjBad  == pc = "project" /\ k <= 3 /\ c.ann[k] /\ ~HasTask(k) /\ Fail("E:annotated clip is not part of the project")
-ProjDone == pc = "project" /\ k > 3 /\ Goto("built") /\ k' = k
+\* the annotated clip a is found among the task clips: by uuid (the code), or (control "deep") only by a deeply equal copy
+TaskHit(a, j) == c.tseq[j] = a /\ (ClipKey = "uuid" \/ c.enr[a] = 0)
+\* "set": any task; "generator": only the tasks not yet consumed by earlier membership tests (g = tasks consumed so far)
+From == IF ProjScan = "generator" THEN g + 1 ELSE 1
+Hits(a) == {j \in From..Len(c.tseq) : TaskHit(a, j)}
+ProjOk   == /\ pc = "project" /\ k <= Len(c.aseq) /\ Hits(c.aseq[k]) # {}
+            /\ g' = (IF ProjScan = "generator" THEN SetMin(Hits(c.aseq[k])) ELSE g)
+            /\ k' = k + 1 /\ UNCHANGED <<c, path, pc, ok>>
+ProjBad  == pc = "project" /\ k <= Len(c.aseq) /\ Hits(c.aseq[k]) = {} /\ Fail("E:annotated clip is not part of the project")
+ProjDone == pc = "project" /\ k > Len(c.aseq) /\ Goto("built") /\ k' = k
 (* ---- clip ---- *)
 RECURSIVE Digits(_)
 Digits(n) == IF n < 10 THEN <<n>> ELSE Append(Digits(n \div 10), n % 10)     \* str(int): decimal digits
@@ -163,7 +176,7 @@ ScoreOk   == pc = "score" /\ c.v # "none" /\ GeZero(c.v) /\ LeOne(c.v) /\ Goto("
 
 Next == \/ CeMatchOk \/ CeMatchNull \/ CeMatchesDone \/ CeClipsOk \/ CeClipsBad \/ CeDupT \/ CeNoDupT \/ CeDupS \/ CeNoDupS
         \/ CeMergedOk \/ CeMergedBad \/ CeSetTBad \/ CeSetTOk \/ CeSetSBad \/ CeSetSOk \/ MatchOk \/ MatchNull
-        \/ ProjSkip \/ ProjOk \/ ProjBad \/ ProjDone \/ ClipOk \/ ClipBad \/ ClipCrash
+        \/ ProjOk \/ ProjBad \/ ProjDone \/ ClipOk \/ ClipBad \/ ClipCrash
         \/ ScoreNone \/ ScoreLow \/ ScoreHigh \/ ScoreOk
 Spec == Init /\ [][Next]_vars
 
@@ -178,6 +191,6 @@ ImplReasons == (~ok /\ c.kind = "ce") =>
     /\ (pc = "E:clips do not match" /\ ClipKey = "uuid") => ~SameClip(c.pairing)
     /\ (pc = "E:multiple matches for the same target" /\ MatchKey = "annotation") => \E a \in 1..3 : Count(c.ms, 2, a) > 1
     /\ pc = "E:multiple matches for the same source" => \E p \in 1..3 : Count(c.ms, 1, p) > 1
-Laws == (pc = c.kind /\ k = 1) => LawOrderFree(c) /\ LawCounting(c) /\ LawEmpty
+Laws == (pc = c.kind /\ k = 1) => LawOrderFree(c) /\ LawCounting(c) /\ LawEmpty /\ LawProjectOrderFree(c)
 TerminatesBySafety == Terminal \/ ENABLED Next
 =============================================================================
